@@ -6,7 +6,11 @@
     over [arith] hold for the binary64 instance too, without mentioning floats. *)
 From RNT.Model Require Import Base Lll.
 From RNT.Refine Require Import LllBasic LllMat LllH LllHB LllShort LllShortSpec LllReduced LllGS.
-From Coq Require Import QArith Qcanon.
+From RNT.Refine Require Import LllExitStep2 LllExitIndep LllExitLoop LllExitGS LllExitTotal LllExit LllExitPotential.
+From RNT.Refine Require Import LllExitFull LllExitTerm.
+From RNT.Refine Require LllExitDet.
+From RNT.Refine Require Import CholAlg CholLoops CholFind.
+From Coq Require Import Lia QArith Qcanon.
 Open Scope Z_scope.
 
 (** [P] fewer than two rows: the code indexes out of bounds (lll.rs:38, 104), for every arithmetic. *)
@@ -157,3 +161,311 @@ Proof.
   - eexists. vm_compute. reflexivity.
   - intros H. apply (f_equal this) in H. vm_compute in H. discriminate.
 Qed.
+
+
+(** * Second wave: reducedness at exit (exact arithmetic), without the flag *)
+
+(** [P] (exact arithmetic) step 2 (lll.rs:102-112, the incremental Gram-Schmidt of a row reached for the
+    first time, k = kmax + 1) establishes the Gram-Schmidt relation for rows 0..k, given it for rows
+    0..kmax with non-zero |b*_j|^2. *)
+Theorem step2_preserves_gs : forall (n : nat) (s : lstate),
+  wfstate n s -> (l_k s < n)%nat -> gs_rel n s -> l_k s = S (l_kmax s) ->
+  (forall j, (j <= l_kmax s)%nat -> Nb s j <> Q2Qc 0) ->
+  wfstate n (step2 arithQ s) /\ gs_rel n (step2 arithQ s).
+Proof. exact LllExitStep2.step2_preserves_gs. Qed.
+
+(** [P] (exact arithmetic) the invariant of the outer loop. [linv n s]: shapes, [gs_rel] for rows 0..kmax,
+    |b*_i|^2 > 0 for i <= kmax, rows of the basis linearly independent; [prefix_red s k]: for every row
+    i < k, |mu_ij| <= 1/2 (j < i) and (3/4 - mu_{i,i-1}^2) |b*_{i-1}|^2 <= |b*_i|^2 (i >= 1).
+    From a state with 1 <= k < n, k <= kmax + 1 that satisfies both, a run of [main_loop] that returns
+    ends with kmax = n - 1 and all n rows reduced (the loop exits only with k + 1 >= n, after row k was
+    size-reduced by the descending loop and passed the Lovasz test). *)
+Theorem main_loop_inv : forall (n fuel : nat) (s s' : lstate),
+  main_loop arithQ fuel n s = Done s' ->
+  linv n s -> (1 <= l_k s < n)%nat -> (l_k s <= S (l_kmax s))%nat -> prefix_red s (l_k s) ->
+  linv n s' /\ S (l_kmax s') = n /\ prefix_red s' n.
+Proof. exact LllExitLoop.main_loop_inv. Qed.
+
+(** [P] (exact arithmetic) [lll_reduced_exact]: for every square rational basis B (>= 2 rows, else the
+    run panics: [lll_small_panics]) whose rows are linearly independent ([rows_independent]: no non-trivial
+    rational combination of the rows vanishes, i.e. B is non-singular) and EVERY fuel: if the run returns
+    (B', H) then the model-evaluated predicate [is_lll_reduced B'] is [true], i.e. ([lll_reduced_prop])
+    the Gram-Schmidt vectors of B' (textbook formulas) are non-zero, |mu_ij| <= 1/2 for j < i and
+    (3/4 - mu_{i+1,i}^2) |b*_i|^2 <= |b*_{i+1}|^2. This removes the flag from [lll_reduced_partial].
+    (Termination, i.e. that [lll_fuel] suffices, is NOT proved.) *)
+Theorem lll_reduced_exact : forall (fuel : nat) (B B' : list (list Qc)) (H : list (list Z)),
+  Forall (fun r => length r = length B) B -> rows_independent B ->
+  lll arithQ fuel B = Done (B', H) ->
+  is_lll_reduced B' = true.
+Proof. exact LllExit.lll_reduced_exact. Qed.
+
+Theorem lll_reduced_exact_prop : forall (fuel : nat) (B B' : list (list Qc)) (H : list (list Z)),
+  Forall (fun r => length r = length B) B -> rows_independent B ->
+  lll arithQ fuel B = Done (B', H) ->
+  lll_reduced_prop Qc_34 B'.
+Proof. exact LllExit.lll_reduced_exact_prop. Qed.
+
+(** [P] the flag computed by [lll_exact_checked] (the run with the model's own fuel) is always [true] on
+    such inputs. *)
+Theorem lll_exact_checked_flag : forall (B B' : list (list Qc)) (H : list (list Z)) (b : bool),
+  Forall (fun r => length r = length B) B -> rows_independent B ->
+  lll_exact_checked B = Done (B', H, b) -> b = true.
+Proof. exact LllExit.lll_exact_checked_flag. Qed.
+
+(** [P] a criterion for [rows_independent] that can be evaluated: a right inverse. *)
+Theorem right_inverse_independent : forall B C : list (list Qc), right_inverse B C -> rows_independent B.
+Proof. exact LllExit.right_inverse_independent. Qed.
+
+(** Non-vacuity: the 3x3 and the 4x4 basis of [lll_ex3], [lll_ex4] (on which the run through
+    [lll arithQ] returns, see above) are square with linearly independent rows. *)
+Ltac ri_cases :=
+  let i := fresh "i" in let j := fresh "j" in let Hi := fresh "Hi" in let Hj := fresh "Hj" in
+  intros i j Hi Hj;
+  destruct i as [|[|[|[|[|i]]]]]; try (exfalso; vm_compute in Hi; lia);
+  destruct j as [|[|[|[|[|j]]]]]; try (exfalso; vm_compute in Hj; lia);
+  apply Qc_is_canon; vm_compute; reflexivity.
+
+Example lll_ex3_hyps :
+  let B := qmat [[1;1;1];[-1;0;2];[3;5;6]] in
+  Forall (fun r => length r = length B) B /\ rows_independent B.
+Proof.
+  split; [repeat constructor|].
+  apply (right_inverse_independent _
+    [[Q2Qc (10 # 3);Q2Qc (1 # 3);Q2Qc (-2 # 3)];[Q2Qc (-4 # 1);Q2Qc (-1 # 1);Q2Qc (1 # 1)];[Q2Qc (5 # 3);Q2Qc (2 # 3);Q2Qc (-1 # 3)]]).
+  ri_cases.
+Qed.
+
+Example lll_ex4_hyps :
+  let B := qmat [[1;0;0;1345];[0;1;0;35];[0;0;1;154];[7;5;-3;11]] in
+  Forall (fun r => length r = length B) B /\ rows_independent B.
+Proof.
+  split; [repeat constructor|].
+  apply (right_inverse_independent _
+    [[Q2Qc (-298 # 9117);Q2Qc (-6725 # 9117);Q2Qc (1345 # 3039);Q2Qc (1345 # 9117)];
+     [Q2Qc (-245 # 9117);Q2Qc (8942 # 9117);Q2Qc (35 # 3039);Q2Qc (35 # 9117)];
+     [Q2Qc (-1078 # 9117);Q2Qc (-770 # 9117);Q2Qc (3193 # 3039);Q2Qc (154 # 9117)];
+     [Q2Qc (7 # 9117);Q2Qc (5 # 9117);Q2Qc (-1 # 3039);Q2Qc (-1 # 9117)]]).
+  ri_cases.
+Qed.
+
+(** ... and the theorem applied to the 4x4 run (no evaluation of the flag involved). *)
+Example lll_ex4_reduced : forall B' H,
+  lll_exact (qmat [[1;0;0;1345];[0;1;0;35];[0;0;1;154];[7;5;-3;11]]) = Done (B', H) -> is_lll_reduced B' = true.
+Proof.
+  intros B' H R. destruct lll_ex4_hyps as [Sq Ind].
+  exact (lll_reduced_exact _ _ B' H Sq Ind R).
+Qed.
+
+(** Non-vacuity of [step2_preserves_gs] / [main_loop_inv]: the initial state of the run on the 3x3 basis
+    (k = 1 = kmax + 1: step 2 fires) satisfies the invariant. *)
+Example lll_init_inv :
+  let B := qmat [[1;1;1];[-1;0;2];[3;5;6]] in
+  let zero_row := repeat (f0 arithQ) 3 in
+  let s0 := mkL 1 0 B B (set_nth zero_row 0 (norm_sqr arithQ (row B 0))) (repeat zero_row 3) (identity 3) in
+  linv 3 s0 /\ prefix_red s0 1 /\ l_k s0 = S (l_kmax s0).
+Proof.
+  destruct lll_ex3_hyps as [Sq Ind].
+  destruct (LllExit.init_linv (qmat [[1;1;1];[-1;0;2];[3;5;6]]) ltac:(vm_compute; lia) Sq Ind) as [L P].
+  split; [exact L|]. split; [exact P|reflexivity].
+Qed.
+
+
+(** [P] (exact arithmetic) a run on a square matrix with at least two rows (singular or not) never panics:
+    every index is in range and [floor] is total; the outcome is [Done] or [OutOfFuel]. *)
+Theorem lll_exact_no_panic : forall (fuel : nat) (B : list (list Qc)) (c : ptag),
+  (2 <= length B)%nat -> Forall (fun r => length r = length B) B ->
+  lll arithQ fuel B <> Panic c.
+Proof. exact LllExitTotal.lll_exact_no_panic. Qed.
+
+(** [P] the LLL clause of the property for the exact instance, in one statement (partial correctness:
+    termination is not included): on a non-singular square basis with at least two rows the run never
+    panics, and if it returns (B', H) then H is unimodular, B' = H B, and B' is LLL-reduced with 3/4. *)
+Theorem lll_exact_correct : forall (fuel : nat) (B : list (list Qc)),
+  (2 <= length B)%nat -> Forall (fun r => length r = length B) B -> rows_independent B ->
+  (forall c, lll arithQ fuel B <> Panic c) /\
+  forall B' H, lll arithQ fuel B = Done (B', H) ->
+    (elem_reachable (length B) H /\
+     exists H', zwf (length B) H /\ zwf (length B) H' /\
+                zmmul (length B) H' H = identity (length B) /\ zmmul (length B) H H' = identity (length B)) /\
+    B' = qmmul (length B) (injM H) B /\
+    lll_reduced_prop Qc_34 B'.
+Proof. exact LllExit.lll_exact_correct. Qed.
+
+(** [P] (exact arithmetic) one step of the termination argument (termination itself is NOT proved).
+    [gramdet s i] = |b*_0|^2 ... |b*_i|^2 as maintained in [l_b]. In a state satisfying the loop invariant
+    with 1 <= k <= kmax in which the Lovasz test fails, SWAP(k-1) multiplies d_{k-1} by a factor < 3/4,
+    leaves every other d_i (i <= kmax) unchanged and keeps all of them positive; RED changes none.
+    Missing for termination: a lower bound for the d_i (for integer bases they are positive integers, the
+    leading Gram determinants), an upper bound for the initial d_i from the entry size, and the
+    arithmetic that [lll_fuel] exceeds the resulting number of swaps + n. *)
+Theorem swap_potential : forall (n : nat) (s s' : lstate),
+  linv n s -> (1 <= l_k s <= l_kmax s)%nat ->
+  lovasz_fails arithQ s = true -> swap arithQ n s (l_k s - 1) = Done s' ->
+  Qclt (gramdet s' (l_k s - 1)) (Qcmult Qc_34 (gramdet s (l_k s - 1))) /\
+  (forall i, i <> (l_k s - 1)%nat -> (i <= l_kmax s)%nat -> gramdet s' i = gramdet s i) /\
+  (forall i, (i <= l_kmax s)%nat -> Qclt (Q2Qc 0) (gramdet s' i)).
+Proof. exact LllExitPotential.swap_potential. Qed.
+
+Theorem red_potential : forall (n : nat) (s : lstate) (k l : nat) (s' : lstate),
+  wfstate n s -> (l < k)%nat -> (k < n)%nat ->
+  red arithQ n s k l = Done s' -> forall i, gramdet s' i = gramdet s i.
+Proof. exact LllExitPotential.red_potential. Qed.
+
+(** Non-vacuity of [swap_potential]: the basis (2,0),(1,1) with its Gram-Schmidt data, k = kmax = 1:
+    mu_10 = 1/2, B_0 = 4, B_1 = 1 < (3/4 - 1/4) 4. The state satisfies the invariant, the test fails, the
+    swap happens and d_0 drops from 4 to 2. *)
+Definition pot_state : lstate (T:=Qc) :=
+  mkL 1%nat 1%nat (qmat [[2;0];[1;1]]) (qmat [[2;0];[0;1]]) (map Qc_of_Z [4;1])
+      [[Q2Qc 0; Q2Qc 0]; [Q2Qc (1 # 2); Q2Qc 0]] (identity 2).
+
+Example pot_state_inv : linv 2 pot_state /\ (1 <= l_k pot_state <= l_kmax pot_state)%nat.
+Proof.
+  split; [|cbn; lia]. constructor.
+  - unfold wfstate, square, squareZ. cbn. repeat split; repeat constructor.
+  - constructor; cbn [l_kmax pot_state].
+    + intros i p Hi. destruct i as [|[|i]]; [| |exfalso; lia];
+        destruct p as [|[|[|p]]]; apply Qc_is_canon; vm_compute; reflexivity.
+    + intros i j Hi Hj Hne.
+      destruct i as [|[|i]]; [| |exfalso; lia]; (destruct j as [|[|j]]; [| |exfalso; lia]);
+        try (exfalso; apply Hne; reflexivity); apply Qc_is_canon; vm_compute; reflexivity.
+    + intros i Hi. destruct i as [|[|i]]; [| |exfalso; lia]; apply Qc_is_canon; vm_compute; reflexivity.
+  - cbn [l_kmax pot_state]. intros i Hi. destruct i as [|[|i]]; [| |exfalso; lia]; vm_compute; reflexivity.
+  - apply (right_inverse_independent (qmat [[2;0];[1;1]]) [[Q2Qc (1 # 2); Q2Qc 0]; [Q2Qc (-1 # 2); Q2Qc 1]]).
+    ri_cases.
+Qed.
+
+Example pot_state_swaps :
+  lovasz_fails arithQ pot_state = true /\
+  exists s', swap arithQ 2 pot_state (l_k pot_state - 1) = Done s' /\
+             this (gramdet pot_state 0) = 4%Q /\ this (gramdet s' 0) = 2%Q.
+Proof.
+  split; [vm_compute; reflexivity|]. eexists. split; [vm_compute; reflexivity|].
+  split; vm_compute; reflexivity.
+Qed.
+
+(** [P] the integrality behind termination: if (b*, mu, N) are Gram-Schmidt data of the rows 0..i of a
+    matrix with integer entries, then N_0 ... N_i is an integer (the determinant of the Gram matrix of these
+    rows; proved with MathComp's determinants). *)
+Theorem gs_prod_is_int : forall (n i : nat) (Bf Sf mu : nat -> nat -> Qc) (N : nat -> Qc),
+  (i < n)%nat ->
+  (forall a p, (a <= i)%nat -> (p < n)%nat ->
+     Bf a p = Qcplus (Sf a p) (qsum a (fun j => Qcmult (mu a j) (Sf j p)))) ->
+  (forall a b, (a <= i)%nat -> (b <= i)%nat -> a <> b ->
+     qsum n (fun p => Qcmult (Sf a p) (Sf b p)) = Q2Qc 0) ->
+  (forall a, (a <= i)%nat -> N a = qsum n (fun p => Qcmult (Sf a p) (Sf a p))) ->
+  (forall a p, (a <= i)%nat -> (p < n)%nat -> exists z, Bf a p = Qc_of_Z z) ->
+  exists z : Z, qprod (S i) N = Qc_of_Z z.
+Proof. exact LllExitDet.gs_prod_is_int. Qed.
+
+(** [P] (exact arithmetic) in terms of the current basis only ([gd B i] = |b*_0|^2 ... |b*_i|^2 by the textbook
+    formulas, for ALL rows, reached or not): after a failed Lovasz test SWAP(k-1) makes [gd (k-1)] strictly
+    smaller, leaves the other [gd i] unchanged, and all stay positive. *)
+Theorem swap_gd : forall (n : nat) (s s' : lstate),
+  linv n s -> (1 <= l_k s <= l_kmax s)%nat ->
+  lovasz_fails arithQ s = true -> swap arithQ n s (l_k s - 1) = Done s' ->
+  Qclt (gd (l_basis s') (l_k s - 1)) (gd (l_basis s) (l_k s - 1)) /\
+  (forall i, i <> (l_k s - 1)%nat -> (i < n)%nat -> gd (l_basis s') i = gd (l_basis s) i) /\
+  (forall i, (i < n)%nat -> Qclt (Q2Qc 0) (gd (l_basis s') i)).
+Proof. exact LllExitFull.swap_gd. Qed.
+
+(** [P] (exact arithmetic) TERMINATION: for every square rational basis with at least two rows and linearly
+    independent rows there is a fuel from which on the run returns. (Potential: with c a common denominator
+    of the entries, prod_i c^(2(i+1)) gd_i is a positive integer, unchanged by step 2 and RED, strictly
+    smaller after each SWAP.)  NOT proved: that the particular [lll_fuel] of [lll_exact] is such a fuel. *)
+Theorem lll_exact_terminates : forall B : list (list Qc),
+  (2 <= length B)%nat -> Forall (fun r => length r = length B) B -> rows_independent B ->
+  exists fuel0, forall fuel, (fuel0 <= fuel)%nat -> exists B' H, lll arithQ fuel B = Done (B', H).
+Proof. exact LllExitTerm.lll_exact_terminates. Qed.
+
+(** [P] (exact arithmetic) total correctness from that fuel on: the run returns (B', H) with H unimodular
+    (see [lll_H_unimodular] for the inverse), B' = H B and B' LLL-reduced with parameter 3/4. *)
+Theorem lll_exact_total : forall B : list (list Qc),
+  (2 <= length B)%nat -> Forall (fun r => length r = length B) B -> rows_independent B ->
+  exists fuel0, forall fuel, (fuel0 <= fuel)%nat ->
+    exists B' H, lll arithQ fuel B = Done (B', H) /\
+      elem_reachable (length B) H /\
+      B' = qmmul (length B) (injM H) B /\
+      lll_reduced_prop Qc_34 B'.
+Proof. exact LllExitTerm.lll_exact_total. Qed.
+
+(** Non-vacuity: the theorem applied to the 3x3 basis (hypotheses: [lll_ex3_hyps]). *)
+Example lll_ex3_terminates :
+  exists fuel0, forall fuel, (fuel0 <= fuel)%nat ->
+    exists B' H, lll arithQ fuel (qmat [[1;1;1];[-1;0;2];[3;5;6]]) = Done (B', H).
+Proof.
+  destruct lll_ex3_hyps as [Sq Ind].
+  exact (lll_exact_terminates (qmat [[1;1;1];[-1;0;2];[3;5;6]]) ltac:(vm_compute; lia) Sq Ind).
+Qed.
+
+(** * Second wave: [Cholesky::find] and the enumeration on a Gram matrix (exact arithmetic) *)
+
+(** [P] (exact arithmetic) what [cholesky_find] computes, for EVERY square matrix (no hypothesis on the
+    pivots: x/0 = 0 on both sides): with A^(0) = Q, A^(i+1)_kl = A^(i)_kl - A^(i)_ik A^(i)_il / A^(i)_ii
+    ([schur Q i k l], the symmetric elimination / Schur complements), the result q has
+    q_aa = A^(a)_aa, q_ab = A^(a)_ab / A^(a)_aa for a < b and 0 below the diagonal. *)
+Theorem cholesky_find_entries : forall Q : list (list Qc), square (length Q) Q ->
+  exists q, cholesky_find arithQ Q = Done q /\ square (length Q) q /\
+    (forall a, (a < length Q)%nat -> get2 arithQ q a a = schur Q a a a) /\
+    (forall a b, (a < b < length Q)%nat -> get2 arithQ q a b = Qcdiv (schur Q a a b) (schur Q a a a)) /\
+    (forall a b, (b < a < length Q)%nat -> get2 arithQ q a b = Q2Qc 0).
+Proof. exact CholLoops.cholesky_find_entries. Qed.
+
+(** [P] positive definite over the rationals ([posdef]: x^T Q x > 0 for every rational x <> 0) is the same
+    as "all pivots A^(i)_ii of the elimination are positive" ([pivots_pos]), for a symmetric matrix. *)
+Theorem posdef_pivots_pos : forall Q : list (list Qc),
+  square (length Q) Q -> msym (length Q) Q -> posdef (length Q) Q -> pivots_pos Q.
+Proof. exact CholFind.posdef_pivots_pos. Qed.
+
+Theorem pivots_pos_posdef : forall Q : list (list Qc), msym (length Q) Q -> pivots_pos Q -> posdef (length Q) Q.
+Proof. exact CholFind.pivots_pos_posdef. Qed.
+
+(** [P] (exact arithmetic) [cholesky_find_spec]: for a symmetric positive-definite rational Q the routine
+    returns a decomposition q with positive diagonal such that [find_value q x] is x^T Q x
+    ([qform]: sum_i sum_j x_i Q_ij x_j) for every integer vector x of the right length
+    (Cohen 2.7.5: Q(x) = sum_i q_ii (x_i + sum_{j>i} q_ij x_j)^2). *)
+Theorem cholesky_find_spec : forall Q : list (list Qc),
+  square (length Q) Q -> msym (length Q) Q -> posdef (length Q) Q ->
+  exists q, cholesky_find arithQ Q = Done q /\ length q = length Q /\ posdiag q /\
+    forall x : list Z, length x = length Q ->
+      find_value arithQ q (map (fofZ arithQ) x) = Done (qform (length Q) Q (fun i => Qc_of_Z (nth i x 0))).
+Proof. exact CholFind.cholesky_find_spec. Qed.
+
+(** the same under the hypothesis "all pivots positive", with the pivots and [qvalue] made explicit *)
+Theorem cholesky_find_spec_pivots : forall Q : list (list Qc),
+  square (length Q) Q -> msym (length Q) Q -> pivots_pos Q ->
+  exists q, cholesky_find arithQ Q = Done q /\ length q = length Q /\ posdiag q /\
+    (forall i, (i < length Q)%nat -> gq q i i = schur Q i i i) /\
+    forall x : list Z, length x = length Q ->
+      qvalue q x = qform (length Q) Q (fun i => Qc_of_Z (nth i x 0)) /\
+      find_value arithQ q (map (fofZ arithQ) x) = Done (qform (length Q) Q (fun i => Qc_of_Z (nth i x 0))).
+Proof. exact CholFind.cholesky_find_spec_pivots. Qed.
+
+(** [P] (exact arithmetic) [short_vectors_gram_spec]: for a symmetric positive-definite Gram matrix Q and a
+    bound c, the enumeration on the decomposition of Q returns, without repetition, pairs (v, y) with y a
+    non-zero integer vector, v = y^T Q y <= c, and for every non-zero integer y with y^T Q y <= c exactly
+    one of y, -y.  (If c < 0 the call panics, [short_vectors_complete].) *)
+Theorem short_vectors_gram_spec : forall (Q : list (list Qc)) (c : Qc) (q : list (list Qc)) (l : list (Qc * list Z)),
+  square (length Q) Q -> msym (length Q) Q -> posdef (length Q) Q ->
+  cholesky_find arithQ Q = Done q -> find_short_vectors arithQ q c = Done l ->
+  let val := fun y : list Z => qform (length Q) Q (fun i => Qc_of_Z (nth i y 0)) in
+  NoDup (map snd l) /\
+  (forall v y, In (v, y) l -> length y = length Q /\ forallb (Z.eqb 0) y = false /\ v = val y /\ Qcle v c) /\
+  (forall y, length y = length Q -> forallb (Z.eqb 0) y = false -> Qcle (val y) c ->
+     (In y (map snd l) /\ ~ In (vneg y) (map snd l)) \/ (~ In y (map snd l) /\ In (vneg y) (map snd l))).
+Proof. exact CholFind.short_vectors_gram_spec. Qed.
+
+(** Non-vacuity: the Gram matrix [[2;1;0];[1;2;1];[0;1;2]] of the root lattice A3 is square, symmetric,
+    positive definite; its decomposition has the pivots 2, 3/2, 4/3; with c = 2 the enumeration returns the
+    6 = 12/2 minimal vectors, each with value 2. *)
+Example gram_ex3_hyps :
+  square (length gramA3) gramA3 /\ msym (length gramA3) gramA3 /\ posdef (length gramA3) gramA3.
+Proof. exact (conj gramA3_square (conj gramA3_msym gramA3_posdef)). Qed.
+
+Example gram_ex3_run :
+  omap (fun q => (map (map this) q,
+                  omap (map (fun vx => (this (fst vx), snd vx))) (find_short_vectors_exact q (Qc_of_Z 2))))
+       (cholesky_find_exact gramA3)
+  = Done ([[2 # 1; 1 # 2; 0 # 1]; [0 # 1; 3 # 2; 2 # 3]; [0 # 1; 0 # 1; 4 # 3]]%Q,
+          Done [((2 # 1)%Q, [0; 0; -1]); ((2 # 1)%Q, [-1; 1; -1]); ((2 # 1)%Q, [0; 1; -1]);
+                ((2 # 1)%Q, [0; -1; 0]); ((2 # 1)%Q, [1; -1; 0]); ((2 # 1)%Q, [-1; 0; 0])]).
+Proof. vm_compute. reflexivity. Qed.
